@@ -652,9 +652,13 @@ func parentMain(spec *Spec, tier string, seed int64) int {
 		"coverage": cov, "assumptions": spec.Assumptions,
 		"wall_s": time.Since(t0).Seconds(), "violations": nNew,
 	}
-	os.MkdirAll(filepath.Join(VerifDir, "evidence"), 0o755)
+	evDir := filepath.Join(VerifDir, "evidence")
+	if d := os.Getenv("VERIF_EVIDENCE_DIR"); d != "" {
+		evDir = d // runs against a scratch checkout must not overwrite the real evidence
+	}
+	os.MkdirAll(evDir, 0o755)
 	b, _ := json.MarshalIndent(ev, "", " ")
-	os.WriteFile(filepath.Join(VerifDir, "evidence", spec.ID+".json"), b, 0o644)
+	os.WriteFile(filepath.Join(evDir, spec.ID+".json"), b, 0o644)
 	fmt.Printf("%s %s seed=%d: %s; cases=%d distinct_nontrivial=%d violations=%d wall=%.1fs\n", spec.ID, tier, seed, verdict, cases, len(shapes), nNew, time.Since(t0).Seconds())
 	ks := make([]string, 0, len(p.Counters))
 	for k := range p.Counters {
